@@ -383,7 +383,7 @@ def to_tla(prog):
                 'head': oneof_head(n['id'], idx) if p['kind'] == 'oneof' else '-',
             })
         params.sort(key=lambda q: q['kw'])
-        excs = n['exceptions'] if n['exceptions'] else ['Exception']
+        excs = n['exceptions'] if n['exceptions'] is not None else ['Exception']      # []: configured, matches nothing
         nodes.append({
             'id': n['id'], 'params': params, 'mode': n['mode'],
             'attempts': int(n['attempts'] or 1),
